@@ -17,7 +17,8 @@ yields*.  `Model/ExtendsFS.lean` filled the parameter for files that are already
 and `loadYamlFile` on one document is `Pipeline.processDoc` (the integrator's composed model of `processRawYaml`:
 interpolate → (extends: skipped) → merge into `{}` → unicity → (schema: skipped) → canonical → omitEmpty → unicity).
 So the file-system entry of a raw file is `loadFile`: the composed per-document pipeline under the cloned options on
-the empty model, then C12's `Paths.resolve` with the file's own directory (`anchoredFile`).
+the empty model, then C12's `Paths.resolve` with the file's own directory (`anchoredFileAt`: `$HOME` and the remote test of
+the outer configuration, working directory = the file's directory).
 
 A **virtual file system** (`VFS`) lists, per reference string, the directory of the file (relative to the project
 directory: `loader.Dir(refPath)`) and its raw document — or the error of reading it; `loadedFS` turns it into the `FS`
@@ -43,7 +44,7 @@ def nestedLoad (c : Pipeline.Cfg) (raw : KVs) : Pipeline.Out Val :=
 `ResolveRelativePaths(source, relworkingdir)` (which runs after the `services` / base checks of `baseFromFile`) -/
 def loadFile (c : Pipeline.Cfg) (relDir : String) (raw : KVs) : FileRes :=
   match nestedLoad c raw with
-  | .ok (.map d) => anchoredFile relDir d
+  | .ok (.map d) => anchoredFileAt { c.paths with wd := relDir.toList } d
   | .ok _ => .err "loadErr"
   | .err _ => .err "loadErr"
   | .panic s => .panic s
